@@ -361,6 +361,52 @@ def r14_5(run):
             run.ob('R14.5', init, init.node, '%s.__init__ keeps %s as given' % (cname, field[1:]), ok, slot='init:%s:%s' % (cname, field), message='%s assigned %s' % (field, [src(v) for _, v in ws]))
 
 
+def r14_8(run):
+    """a request is refused before ADD_ONION only for what the request itself says (its key, version, ports, options): a refusal
+    decided by looking at the *other* services the configuration knows (same key? same port?) second-guesses Tor - a DISCARD or
+    not-yet-answered service has no key, so every later keyless request "collides" with it and sends nothing"""
+    u = AES(run)
+    g = cfg_of(u)
+    cfgp = u.params[0]
+    tainted = set()
+    changed = True
+    while changed:
+        changed = False
+        for n in walk_unit(u):
+            tg, v = [], None
+            if isinstance(n, ast.Assign):
+                tg, v = [t for t in assigned_targets(n) if '.' not in t and '[' not in t], n.value
+            elif isinstance(n, ast.For):
+                tg, v = [x.id for x in ast.walk(n.target) if isinstance(x, ast.Name)], n.iter
+            elif isinstance(n, ast.comprehension):
+                tg, v = [x.id for x in ast.walk(n.target) if isinstance(x, ast.Name)], n.iter
+            if v is None:
+                continue
+            src_cfg = any((isinstance(x, ast.Attribute) and dotted(x) and dotted(x).startswith(cfgp + '.') and not dotted(x).startswith(cfgp + '.tor_protocol'))
+                          or (isinstance(x, ast.Name) and x.id in tainted) for x in ast.walk(v))
+            # the result of the descriptor wait / protocol calls is not "other services"
+            if src_cfg and not (isinstance(v, ast.Call) and callee_attr(v) in ('_await_descriptor_upload', 'queue_command')):
+                for t in tg:
+                    if t not in tainted:
+                        tainted.add(t)
+                        changed = True
+    cmdn = g.nodes_where(lambda n: any(isinstance(a, ast.Call) and callee_attr(a) == 'queue_command' for a in node_asts(n)))
+    if not cmdn:
+        raise AnchorVanished('_add_ephemeral_service: ADD_ONION command')
+    after = g.reachable(cmdn)
+    refusals = [n for n in g.real_nodes() if n.kind == 'stmt' and isinstance(n.ast, (ast.Raise, ast.Return)) and n not in after]
+    k = 0
+    for e in refusals:
+        for t, lab in g.guarded_by(e, lambda t_: True):
+            k += 1
+            foreign = [x for x in ast.walk(t.ast) if (isinstance(x, ast.Name) and x.id in tainted) or
+                       (isinstance(x, ast.Attribute) and (dotted(x) or '').startswith(cfgp + '.') and not (dotted(x) or '').startswith(cfgp + '.tor_protocol'))]
+            run.ob('R14.8', u, t.ast, 'a request is refused before ADD_ONION only on its own contents', not foreign, slot='refusal-on-own-contents:%s' % src(t.ast)[:30],
+                   message='_add_ephemeral_service refuses the request (%s) depending on %s, i.e. on other services in the configuration: no ADD_ONION is sent for a '
+                           'request Tor would have accepted' % (src(e.ast)[:40], sorted(set(src(x) for x in foreign))[:3]))
+    run.floor('R14.8', 'guards of refusals before ADD_ONION', k, 2)
+
+
 RULES = [
     ('R14.1', 'one guarded command: ADD_ONION built by appends only, CR/LF test on the key dominates it, sent exactly once (path enumeration over the option product)', r14),
     ('R14.2', 'key custody: DiscardPK => nothing stored, generated key retained, supplied key only prefixed', lambda run: None),
@@ -368,12 +414,14 @@ RULES = [
     ('R14.4', "address = ServiceID + '.onion'; every remove() sends DEL_ONION for that address", r14_4),
     ('R14.6', 'one processed mapping per accepted port entry (path enumeration of one iteration of _validate_ports)', r14_6),
     ('R14.7', 'client pairs recognised by type; sibling agreement of the port validators on the localhost exemption', r14_7),
+    ('R14.8', 'who-may-refuse: refusals before ADD_ONION depend only on the request itself, not on other services of the configuration', r14_8),
     ('R14.5', 'options flow unchanged from create() to the service object and the helper', r14_5),
 ]
 
 from ..selftest import M  # noqa: E402
 F = 'txtorcon/onion.py'
 MUTANTS = [
+    M('collision-precheck', F, "    keystring = 'NEW:BEST'\n", "    for other in config.EphemeralOnionServices:\n        if other is not onion and other.private_key == onion.private_key:\n            raise ValueError('key in use')\n    keystring = 'NEW:BEST'\n", ['R14.8']),
     M('pair-form-refuses-localhost', F, "                    if not _is_non_public_numeric_address(ip):\n                        log.msg(\n                            \"'{}' used as onion port doesn't appear to be a \"\n                            \"local, numeric address\".format(ip)\n                        )", "                    if not _is_non_public_numeric_address(ip):\n                        raise ValueError('not local')", ['R14.7']),
     M('client-pair-by-unpacking', F, "            if isinstance(client, tuple):\n                client_name, keyblob = client\n                self._clients[client_name] = keyblob\n            else:\n                self._clients[client] = None", "            try:\n                client_name, keyblob = client\n            except ValueError:\n                client_name, keyblob = client, None\n            self._clients[client_name] = keyblob", ['R14.7']),
     M('unix-pair-dropped', F, "                if local.startswith('unix:/'):\n                    pass\n                else:", "                if local.startswith('unix:/'):\n                    continue\n                else:", ['R14.6']),
